@@ -200,3 +200,208 @@ theorem homJet2_spec_v {o : Obj K} {b1 b2 : Basis K} (hb : o.bases = #[b1, b2]) 
 end Obj
 
 end Splipy
+
+/-! ## Any valid basis (periodic or not): the rows as ONE unwrapped derivative sum -/
+
+namespace Splipy
+
+set_option linter.unusedSectionVars false
+open Tensor
+
+variable {K : Type} [Field K] [LinearOrder K] [IsStrictOrderedRing K] [FloorRing K]
+
+/-- Effective point and side of a row: the parameter itself with `effSide` for a non-periodic basis, the
+wrapped parameter with the seam rule (`periodicEff`) for a periodic one. -/
+def Basis.effPt (b : Basis K) (t : K) (a : Bool) : K × Side :=
+  if b.periodic < 0 then (t, effSide b t a) else periodicEff b (b.wrap t) a
+
+omit [FloorRing K] in
+theorem sum_wrapped_images' (f : ℕ → K) (P : ℕ → K) (n N : ℕ) (hn : 0 < n) :
+    (Finset.range n).sum (fun j => ((Finset.range N).filter (fun i => i % n = j)).sum f * P j) =
+      (Finset.range N).sum (fun i => f i * P (i % n)) := by
+  have h1 : ∀ j ∈ Finset.range n,
+      ((Finset.range N).filter (fun i => i % n = j)).sum f * P j =
+        (Finset.range N).sum (fun i => if i % n = j then f i * P (i % n) else 0) := by
+    intro j _
+    rw [Finset.sum_mul, Finset.sum_filter]
+    apply Finset.sum_congr rfl
+    intro i _
+    by_cases h : i % n = j
+    · rw [if_pos h, if_pos h, h]
+    · rw [if_neg h, if_neg h]
+  rw [Finset.sum_congr rfl h1, Finset.sum_comm]
+  apply Finset.sum_congr rfl
+  intro i _
+  rw [Finset.sum_ite_eq, if_pos (Finset.mem_range.mpr (Nat.mod_lt _ hn))]
+
+/-- `Σ_j rowSpec_j · P_j` is the derivative sum of the UNWRAPPED spline with coefficients `P (i % n)` over all
+`nAll` functions, at the effective point/side — for a non-periodic basis `nAll = n` and nothing wraps. -/
+theorem rowSpec_sum {b : Basis K} (hv : b.Valid) (hn : 0 < b.numFunctions) (t : K) (a : Bool) (d : ℕ)
+    (hnot : b.periodic < 0 → ¬ (t = b.start ∧ a = false)) (P : ℕ → K) :
+    ∑ j ∈ Finset.range b.numFunctions, b.rowSpec t a d j * P j =
+      splineDeriv (b.effPt t a).2 b.kn (b.order - 1) b.nAll (fun i => P (i % b.numFunctions)) d
+        (b.effPt t a).1 := by
+  unfold splineDeriv Basis.rowSpec Basis.effPt
+  by_cases hper : b.periodic < 0
+  · have hper' : b.periodic = -1 := by have := hv.periodic_ge; omega
+    simp only [if_pos hper, if_neg (hnot hper)]
+    rw [← Basis.numFunctions_of_nonperiodic hper']
+    apply Finset.sum_congr rfl
+    intro j hj
+    rw [Nat.mod_eq_of_lt (Finset.mem_range.mp hj)]
+    ring
+  · simp only [if_neg hper]
+    rw [sum_wrapped_images' _ P b.numFunctions b.nAll hn]
+    apply Finset.sum_congr rfl
+    intro i _
+    ring
+
+/-- The effective point lies in the half-open domain piece its side selects. -/
+theorem effPt_mem {b : Basis K} (hv : b.Valid) {t : K} (a : Bool)
+    (hin : b.periodic < 0 → b.start ≤ t ∧ t ≤ b.stop)
+    (hnot : b.periodic < 0 → ¬ (t = b.start ∧ a = false)) :
+    (b.effPt t a).2.mem (b.kn (b.order - 1)) (b.kn b.nAll) (b.effPt t a).1 := by
+  have hlt := hv.start_lt_stop
+  rw [← b.start_eq, ← b.stop_eq]
+  have key : ∀ w : K, b.start ≤ w → w ≤ b.stop → ¬ (w = b.start ∧ a = false) →
+      (effSide b w a).mem b.start b.stop w := by
+    intro w h1 h2 hn'
+    unfold effSide
+    by_cases hs : w = b.stop
+    · rw [if_pos hs]; exact ⟨by rw [hs]; exact hlt, h2⟩
+    · rw [if_neg hs]
+      cases a
+      · have hne : w ≠ b.start := fun h => hn' ⟨h, rfl⟩
+        exact ⟨lt_of_le_of_ne h1 (Ne.symm hne), h2⟩
+      · exact ⟨h1, lt_of_le_of_ne h2 hs⟩
+  unfold Basis.effPt
+  by_cases hper : b.periodic < 0
+  · rw [if_pos hper]
+    exact key t (hin hper).1 (hin hper).2 (hnot hper)
+  · rw [if_neg hper]
+    have hw := b.wrap_mem hv t
+    unfold periodicEff
+    by_cases hsl : b.wrap t = b.start ∧ a = false
+    · rw [if_pos hsl]; exact ⟨hlt, le_refl _⟩
+    · rw [if_neg hsl]; exact key _ hw.1 hw.2 hsl
+
+namespace Obj
+
+/-- Jets of the closed forms, any valid basis. -/
+theorem curveJet_spec_any {o : Obj K} {b1 : Basis K} (hb : o.bases = #[b1]) (hv : b1.Valid)
+    (hn : 0 < b1.numFunctions) {nc : ℕ} (hs : o.cps.shape = [b1.numFunctions, nc]) {tol : K}
+    (htol : 0 < tol) (ts : List K) (k : ℕ) (a : Bool) {i c : ℕ} (hi : i < ts.length) (hc : c < nc)
+    (hadm : b1.Admissible tol (ts.getD i 0))
+    (hnot : b1.periodic < 0 → ¬ (ts.getD i 0 = b1.start ∧ a = false)) :
+    (o.curveJet tol ts k a).get (i * nc + c) =
+      splineDeriv (b1.effPt (ts.getD i 0) a).2 b1.kn (b1.order - 1) b1.nAll
+        (fun j => o.cps.get ((j % b1.numFunctions) * nc + c)) k (b1.effPt (ts.getD i 0) a).1 := by
+  rw [curveJet_get hb hs tol ts k a hi hc,
+    ← rowSpec_sum hv hn (ts.getD i 0) a k hnot (fun j => o.cps.get (j * nc + c))]
+  apply Finset.sum_congr rfl
+  intro j hj
+  rw [evaluate_eq_drowVal htol hadm, Basis.drowVal_eq_rowSpec hv htol hadm k a (Finset.mem_range.mp hj)]
+
+/-- Jets of the generic path, any valid basis. -/
+theorem homJet1_spec_any {o : Obj K} {b1 : Basis K} (hb : o.bases = #[b1]) (hv : b1.Valid)
+    (hn : 0 < b1.numFunctions) {nc : ℕ} (hs : o.cps.shape = [b1.numFunctions, nc]) {tol : K}
+    (htol : 0 < tol) (us : List K) (d : ℕ) (a : Bool) {i c : ℕ} (hi : i < us.length) (hc : c < nc)
+    (hadm : b1.Admissible tol (us.getD i 0))
+    (hnot : b1.periodic < 0 → ¬ (us.getD i 0 = b1.start ∧ a = false)) :
+    (o.homJet tol (o.snapParams tol [us]) [d] [a] true).get (i * nc + c) =
+      splineDeriv (b1.effPt (us.getD i 0) a).2 b1.kn (b1.order - 1) b1.nAll
+        (fun j => o.cps.get ((j % b1.numFunctions) * nc + c)) d (b1.effPt (us.getD i 0) a).1 := by
+  rw [homJet1 hb]
+  simp only [if_true]
+  rw [contractGrid1_get _ _ hs (by rw [basisMat_rows, List.length_map]; exact hi) hc,
+    ← rowSpec_sum hv hn (us.getD i 0) a d hnot (fun j => o.cps.get (j * nc + c))]
+  apply Finset.sum_congr rfl
+  intro j hj
+  rw [basisMat_snap_entry_d b1 tol us d a hi,
+    Basis.drowVal_eq_rowSpec hv htol hadm d a (Finset.mem_range.mp hj)]
+
+end Obj
+
+end Splipy
+
+/-! ## Jets of the surface closed forms -/
+
+namespace Splipy
+
+set_option linter.unusedSectionVars false
+open Tensor
+
+variable {K : Type} [Field K] [LinearOrder K] [IsStrictOrderedRing K] [FloorRing K]
+
+namespace Obj
+
+theorem basis_pair {o : Obj K} {b1 b2 : Basis K} (hb : o.bases = #[b1, b2]) :
+    o.basis 0 = b1 ∧ o.basis 1 = b2 := by
+  unfold Obj.basis; rw [hb]; exact ⟨rfl, rfl⟩
+
+/-- Entry of a surface jet of the closed-form section (raw parameters, sides `frU`, `frV`). -/
+theorem surfJet_get {o : Obj K} {b1 b2 : Basis K} (hb : o.bases = #[b1, b2]) {n1 n2 nc : ℕ}
+    (hs : o.cps.shape = [n1, n2, nc]) (tol : K) (us vs : List K) (frU frV : Bool) (a c : ℕ)
+    {i1 i2 cc : ℕ} (h1 : i1 < us.length) (h2 : i2 < vs.length) (hc : cc < nc) :
+    (o.surfJet tol us vs frU frV a c).get ((i1 * vs.length + i2) * nc + cc) =
+      ∑ j1 ∈ Finset.range n1, ∑ j2 ∈ Finset.range n2,
+        (b1.evaluate tol (us.getD i1 0) a frU).getD j1 0 * (b2.evaluate tol (vs.getD i2 0) c frV).getD j2 0
+          * o.cps.get ((j1 * n2 + j2) * nc + cc) := by
+  unfold surfJet
+  rw [(basis_pair hb).1, (basis_pair hb).2]
+  have hsz : (basisMat b2 tol vs c frV).size = vs.length := basisMat_rows _ _ _ _ _
+  rw [← hsz, contractGrid2_get _ _ _ hs (by rw [basisMat_rows]; exact h1) (by rw [hsz]; exact h2) hc]
+  exact Finset.sum_congr rfl (fun j1 _ => Finset.sum_congr rfl (fun j2 _ => by
+    rw [basisMat_entry b1 tol us a frU h1, basisMat_entry b2 tol vs c frV h2]))
+
+/-- … as a spline in `u` (for fixed `v`) … -/
+theorem surfJet_spec_u {o : Obj K} {b1 b2 : Basis K} (hb : o.bases = #[b1, b2]) (hv1 : b1.Valid)
+    (hv2 : b2.Valid) (hper : b1.periodic = -1) {nc : ℕ}
+    (hs : o.cps.shape = [b1.numFunctions, b2.numFunctions, nc]) {tol : K} (htol : 0 < tol)
+    (us vs : List K) (frU frV : Bool) (a c : ℕ) {i1 i2 cc : ℕ} (h1 : i1 < us.length)
+    (h2 : i2 < vs.length) (hc : cc < nc) (hu : b1.Admissible tol (us.getD i1 0))
+    (hvv : b2.Admissible tol (vs.getD i2 0)) (hnot : ¬ (us.getD i1 0 = b1.start ∧ frU = false)) :
+    (o.surfJet tol us vs frU frV a c).get ((i1 * vs.length + i2) * nc + cc) =
+      splineDeriv (effSide b1 (us.getD i1 0) frU) b1.kn (b1.order - 1) b1.numFunctions
+        (fun j1 => ∑ j2 ∈ Finset.range b2.numFunctions,
+          b2.rowSpec (vs.getD i2 0) frV c j2 * o.cps.get ((j1 * b2.numFunctions + j2) * nc + cc))
+        a (us.getD i1 0) := by
+  rw [surfJet_get hb hs tol us vs frU frV a c h1 h2 hc]
+  unfold splineDeriv
+  apply Finset.sum_congr rfl
+  intro j1 hj1
+  rw [Finset.sum_mul]
+  apply Finset.sum_congr rfl
+  intro j2 hj2
+  rw [evaluate_eq_drowVal htol hu, evaluate_eq_drowVal htol hvv,
+    Basis.drowVal_eq_rowSpec hv1 htol hu a frU (Finset.mem_range.mp hj1),
+    Basis.drowVal_eq_rowSpec hv2 htol hvv c frV (Finset.mem_range.mp hj2), rowSpec_open hper hnot]
+  ring
+
+/-- … and as a spline in `v` (for fixed `u`). -/
+theorem surfJet_spec_v {o : Obj K} {b1 b2 : Basis K} (hb : o.bases = #[b1, b2]) (hv1 : b1.Valid)
+    (hv2 : b2.Valid) (hper : b2.periodic = -1) {nc : ℕ}
+    (hs : o.cps.shape = [b1.numFunctions, b2.numFunctions, nc]) {tol : K} (htol : 0 < tol)
+    (us vs : List K) (frU frV : Bool) (a c : ℕ) {i1 i2 cc : ℕ} (h1 : i1 < us.length)
+    (h2 : i2 < vs.length) (hc : cc < nc) (hu : b1.Admissible tol (us.getD i1 0))
+    (hvv : b2.Admissible tol (vs.getD i2 0)) (hnot : ¬ (vs.getD i2 0 = b2.start ∧ frV = false)) :
+    (o.surfJet tol us vs frU frV a c).get ((i1 * vs.length + i2) * nc + cc) =
+      splineDeriv (effSide b2 (vs.getD i2 0) frV) b2.kn (b2.order - 1) b2.numFunctions
+        (fun j2 => ∑ j1 ∈ Finset.range b1.numFunctions,
+          b1.rowSpec (us.getD i1 0) frU a j1 * o.cps.get ((j1 * b2.numFunctions + j2) * nc + cc))
+        c (vs.getD i2 0) := by
+  rw [surfJet_get hb hs tol us vs frU frV a c h1 h2 hc, Finset.sum_comm]
+  unfold splineDeriv
+  apply Finset.sum_congr rfl
+  intro j2 hj2
+  rw [Finset.sum_mul]
+  apply Finset.sum_congr rfl
+  intro j1 hj1
+  rw [evaluate_eq_drowVal htol hu, evaluate_eq_drowVal htol hvv,
+    Basis.drowVal_eq_rowSpec hv1 htol hu a frU (Finset.mem_range.mp hj1),
+    Basis.drowVal_eq_rowSpec hv2 htol hvv c frV (Finset.mem_range.mp hj2), rowSpec_open hper hnot]
+  ring
+
+end Obj
+
+end Splipy
